@@ -79,8 +79,9 @@ def err_record(e):
             "location": dict(loc) if isinstance(loc, dict) else loc}
 
 
-def parse_observed(source, stop=False, matcher=None, parser=None, idgen=None, builder=None):
-    """Run the real Parser.parse on `source` under the probes."""
+def parse_observed(source, stop=False, matcher=None, parser=None, idgen=None, builder=None, as_scanner=False):
+    """Run the real Parser.parse on `source` under the probes.  With as_scanner the text is handed over
+    as a TokenScanner object (the other documented input form) instead of a string."""
     o = Obs()
     o.source = source
     o.stop = stop
@@ -97,7 +98,11 @@ def parse_observed(source, stop=False, matcher=None, parser=None, idgen=None, bu
     parser.stop_at_first_error = stop
     with probe.auditing() as opened, probe.observing() as obs:
         try:
-            o.ast = parser.parse(source, matcher) if matcher is not None else parser.parse(source)
+            arg = source
+            if as_scanner:
+                from gherkin.token_scanner import TokenScanner
+                arg = TokenScanner(source)
+            o.ast = parser.parse(arg, matcher) if matcher is not None else parser.parse(arg)
             o.status = "ok"
         except CompositeParserException as e:
             o.status = "errors"
